@@ -1026,6 +1026,130 @@ def nontrivial(c):
     return (isinstance(m, list) and any(m)) or m is True or bool(c['derivs']) or c['mode'] == 'lossy'
 
 
+# ---- the 'scaled' codec against the premises and conclusions of C11_scaled_roundtrip (coq/theories/C11Real.v) ----
+SCALED_REFS = ['smallest', 'largest', 'mean', 'median', 'logmean', 'num']
+
+
+def scaled_case(rng):
+    n = rng.choice([201, 202, 250, 333, 500, 1000])
+    dist = rng.choice(['uniform', 'narrow', 'wide', 'signed', 'withzeros', 'twovalues'])
+    r = np.random.RandomState(rng.randrange(2 ** 31))
+    if dist == 'uniform':
+        v = r.uniform(0., 10. ** rng.randint(-3, 6), n)
+    elif dist == 'narrow':
+        v = 10. ** rng.randint(-2, 5) + r.uniform(0., 10. ** rng.randint(-6, 0), n)
+    elif dist == 'wide':
+        v = 10. ** r.uniform(-4, 4, n)
+    elif dist == 'signed':
+        v = r.normal(0., 10. ** rng.randint(-2, 4), n)
+    elif dist == 'withzeros':
+        v = r.uniform(-5., 5., n) * (r.uniform(0, 1, n) < 0.7)
+    else:
+        v = r.choice([1.25, 7.5], n)
+    ref = rng.choice(SCALED_REFS)
+    refnum = 10. ** rng.randint(-3, 3) if ref == 'num' else None
+    return {'kind': 'scaled', 'vals': [float(x).hex() for x in v], 'digits': rng.choice([1, 2, 3, 4, 5, 6, 7, 8, 9, 10, 11, 12, 13, 3.5, 6.92]),
+            'ref': ref, 'refnum': refnum, 'dist': dist}
+
+
+def scaled_check(c):
+    """-> (path, problems). Calls pickler._encode_one_float_array / _decode_floats on one array and checks, when the
+    'scaled' method was chosen, the premises of C11_scaled_roundtrip as the code computes them and its conclusions as
+    the code delivers them."""
+    import sys as _sys
+    import bz2 as _bz2
+    from polymath.extensions import pickler as pk
+    v = np.array([float.fromhex(x) for x in c['vals']])
+    ref = c['refnum'] if c['ref'] == 'num' else c['ref']
+    digits = c['digits']
+    enc = pk._encode_one_float_array(v.copy(), digits, ref)
+    back = pk._decode_floats(enc)
+    probs = []
+    mn, mx = v.min(), v.max()
+    span = mx - mn
+    nz = np.abs(v[v != 0.])
+    if c['ref'] == 'num':
+        maxabs = max(-mn, mx)
+        refval, d = maxabs, digits + np.log10(maxabs / ref)
+    else:
+        refval = {'smallest': nz.min, 'largest': nz.max, 'mean': nz.mean, 'median': lambda: np.median(nz),
+                  'logmean': lambda: np.exp(np.mean(np.log(nz)))}[c['ref']]()
+        d = digits
+    prec = refval * 10. ** (-d)
+    slack = 4 * np.spacing(max(abs(mn), abs(mx)))
+    if back.shape != v.shape:
+        return enc[0], ['decoded shape %s' % (back.shape,)]
+    err = np.abs(back - v).max()
+    if enc[0] != 'scaled':
+        # whatever the method, the precision asked for is kept (float32 only when the digits allow it)
+        lim = prec * (1 + 1e-9) + slack if enc[0] != 'float32' else max(prec, np.abs(v).max() * 2. ** -23) * (1 + 1e-9) + slack
+        if err > lim:
+            probs.append('method %s: error %.3e above the precision %.3e' % (enc[0], err, prec))
+        return enc[0], probs
+    (_, shape, dtype, n, inv_sf, offset, blob) = enc
+    eps = _sys.float_info.epsilon
+    W = 256. ** n
+    if not (isinstance(n, int) and 1 <= n <= 6):
+        probs.append('premise n <= 6: nbytes = %r' % (n,))
+        return 'scaled', probs
+    U = span / prec + 1
+    if U > W * (1 + 1e-12):
+        probs.append('premise span/prec + 1 <= 256^n: %.6e > 256^%d' % (U, n))
+    if n > 1 and U <= 256. ** (n - 1) * (1 - 1e-12):
+        probs.append('nbytes not minimal: %.6e fits in %d bytes' % (U, n - 1))
+    want_inv = span / (W * (1. - eps))
+    if abs(inv_sf - want_inv) > 8 * np.spacing(want_inv):
+        probs.append('premise scale: 1/scale_factor %r, model %r' % (inv_sf, want_inv))
+    if abs(offset - (mn + 0.5 * want_inv)) > 8 * np.spacing(abs(mn) + want_inv):
+        probs.append('premise offset: %r, model %r' % (offset, mn + 0.5 * want_inv))
+    raw = np.frombuffer(_bz2.decompress(blob), dtype='uint8' if n in (3, 5) else dtype)
+    per = {1: 1, 2: 1, 4: 1, 3: 3, 5: 5, 6: 3}[n]
+    if raw.size != v.size * per:
+        probs.append('stored %d integers for %d values' % (raw.size, v.size))
+        return 'scaled', probs
+    if per > 1:
+        base = 256 if n in (3, 5) else 65536
+        k = sum(raw.reshape(-1, per)[:, j].astype(object) * base ** j for j in range(per))
+    else:
+        k = raw.astype(object)
+    k = np.array([int(x) for x in k], dtype=object)
+    # model: k = floor(sf * (v - min)), exactly, on the rationals the floats denote
+    from fractions import Fraction as _Fr
+    sf = _Fr(256) ** n / _Fr(float(span)) * (1 - _Fr(eps))
+    km = [int((sf * (_Fr(float(x)) - _Fr(float(mn)))).__floor__()) for x in v]
+    if any(not (0 <= int(a) < 256 ** n) for a in k):
+        probs.append('conclusion 0 <= k < 256^n fails')
+    dk = max(abs(int(a) - b) for a, b in zip(k, km))
+    if dk > 1:
+        probs.append('integer codes differ from floor(sf*(v-min)) by %d' % dk)
+    if err > 0.5 * inv_sf * (1 + 1e-9) + slack:
+        probs.append('conclusion |decoded - v| <= half a step fails: %.6e > %.6e' % (err, 0.5 * inv_sf))
+    if err > 0.5 * prec * (1 + 1e-9) + slack:
+        probs.append('conclusion |decoded - v| <= precision / 2 fails: %.6e > %.6e' % (err, 0.5 * prec))
+    return 'scaled', probs
+
+
+def scaled_part(ctx):
+    nscaled = 300 if ctx.tier == 'quick' else 4000
+    fixed = []
+    for ref in SCALED_REFS:            # deterministic core: every reference x digits that lead to 1..6 bytes
+        for dg in (1, 3, 5, 8, 10, 12):
+            v = np.linspace(1., 2., 256) ** 3
+            fixed.append({'kind': 'scaled', 'vals': [float(x).hex() for x in v], 'digits': dg, 'ref': ref,
+                          'refnum': 1. if ref == 'num' else None, 'dist': 'core'})
+    for c in fixed + [scaled_case(ctx.rng) for _ in range(nscaled)]:
+        try:
+            path, probs = scaled_check(c)
+        except Exception as e:      # noqa
+            path, probs = 'exception', ['%s: %s' % (type(e).__name__, str(e)[:100])]
+        ctx.note_case({'kind': 'scaled', 'n': len(c['vals']), 'digits': c['digits'], 'ref': c['ref'], 'dist': c['dist']}, True)
+        ctx.count('scaled_codec:' + path)
+        ctx.count('scaled_ref:' + c['ref'])
+        for pr in probs:
+            ctx.fail({'what': 'scaled-codec', 'problem': pr.split(':')[0][:60], 'ref': c['ref']}, c, {'problem': pr, 'path': path})
+            break
+
+
 def run(ctx):
     Pm = P()
     for nm in UNITS:
@@ -1052,6 +1176,7 @@ def run(ctx):
     ]
     if ctx.ensure_library():
         ctx.prove(['theories/Props/C11.v'])
+    scaled_part(ctx)
     cases = gen_cases(ctx.rng, ctx.tier)
     terms, idx, bad_cases = [], [], set()
     ndec = 0
@@ -1136,6 +1261,13 @@ def replay(path):
         print(json.dumps(d, indent=1)[:4000])
         return 1
     c = d['case']
+    if c.get('kind') == 'scaled':
+        path, probs = scaled_check(c)
+        print('scaled codec case:', {k: c[k] for k in ('digits', 'ref', 'refnum', 'dist')}, 'n =', len(c['vals']), 'method', path)
+        for pr in probs:
+            print('FAILS     :', pr)
+        print('property holds on this case' if not probs else 'property FAILS on this case')
+        return 1 if probs else 0
     res = run_case(c, Pm, want_coq=False)
     print('case      :', summary(c))
     print('path      :', res['path'])
